@@ -450,6 +450,13 @@ pub fn project(text: &str, wgsl_source: &str) -> Result<Value, String> {
                             let sv = v["$str"].as_str().unwrap();
                             json!({"kind":"embedded","eq_input": sv == wgsl_source, "len": sv.len()})
                         }
+                        v if v.get("$macro").and_then(|m| m.as_str()) == Some("concat")
+                            && v["args"].as_array().map(|a| !a.is_empty() && a.iter().all(|x| x.get("$str").is_some())).unwrap_or(false) =>
+                        {
+                            // concat! of string literals evaluates to their concatenation
+                            let sv: String = v["args"].as_array().unwrap().iter().map(|x| x["$str"].as_str().unwrap()).collect();
+                            json!({"kind":"embedded","eq_input": sv == wgsl_source, "len": sv.len(), "via": "concat"})
+                        }
                         v if v.get("$macro").is_some() => {
                             json!({"kind": v["$macro"], "path": v["args"].get(0).and_then(|a| a.get("$str")).cloned()})
                         }
